@@ -8,140 +8,8 @@ PROPS = [f'C{i:02d}' for i in range(1, 21)]
 SRC = '/repo/src/hpl'
 
 
-def py_files(root):
-    for dp, dn, fn in os.walk(root):
-        for f in fn:
-            if f.endswith('.py') and f != '_unused.py':
-                yield os.path.join(dp, f)
-
-
-def v_unparse(root):
-    """reformat every module through ast.unparse (comments dropped, layout and line numbers change)"""
-    for p in py_files(root):
-        src = open(p, encoding='utf8').read()
-        open(p, 'w', encoding='utf8').write(ast.unparse(ast.parse(src)) + '\n')
-
-
-def v_reorder(root):
-    """reverse the order of consecutive method definitions in every class"""
-    for p in py_files(root):
-        tree = ast.parse(open(p, encoding='utf8').read())
-        for node in ast.walk(tree):
-            if isinstance(node, ast.ClassDef):
-                body, run = [], []
-                for st in node.body:
-                    if isinstance(st, ast.FunctionDef):
-                        run.append(st)
-                    else:
-                        body.extend(reversed(run)); run = []
-                        body.append(st)
-                body.extend(reversed(run))
-                node.body = body
-        open(p, 'w', encoding='utf8').write(ast.unparse(tree) + '\n')
-
-
-class _Rename(ast.NodeTransformer):
-    def __init__(self, names):
-        self.names = names
-    def visit_Name(self, node):
-        if node.id in self.names:
-            return ast.copy_location(ast.Name(id=node.id + '_v', ctx=node.ctx), node)
-        return node
-    def visit_FunctionDef(self, node):
-        return node  # nested scopes untouched
-    visit_Lambda = visit_FunctionDef
-    def visit_ExceptHandler(self, node):
-        if node.name in self.names:
-            node.name = node.name + '_v'
-        self.generic_visit(node)
-        return node
-
-
-def v_rename(root):
-    """rename every local variable (not parameters) of every function"""
-    for p in py_files(root):
-        tree = ast.parse(open(p, encoding='utf8').read())
-        for fn in [n for n in ast.walk(tree) if isinstance(n, ast.FunctionDef)]:
-            params = {a.arg for a in fn.args.posonlyargs + fn.args.args + fn.args.kwonlyargs}
-            if fn.args.vararg: params.add(fn.args.vararg.arg)
-            if fn.args.kwarg: params.add(fn.args.kwarg.arg)
-            stores = set()
-            nested = set()
-            for n in ast.walk(fn):
-                if isinstance(n, (ast.FunctionDef, ast.Lambda)) and n is not fn:
-                    for m in ast.walk(n):
-                        if isinstance(m, ast.Name):
-                            nested.add(m.id)
-            todo = list(fn.body)
-            while todo:
-                n = todo.pop()
-                if isinstance(n, (ast.FunctionDef, ast.Lambda, ast.ListComp, ast.SetComp, ast.DictComp, ast.GeneratorExp)):
-                    for m in ast.walk(n):
-                        if isinstance(m, ast.Name):
-                            nested.add(m.id)
-                    continue
-                if isinstance(n, ast.Name) and isinstance(n.ctx, ast.Store):
-                    stores.add(n.id)
-                if isinstance(n, ast.ExceptHandler) and n.name:
-                    stores.add(n.name)
-                if isinstance(n, (ast.Global, ast.Nonlocal)):
-                    nested.update(n.names)
-                todo.extend(ast.iter_child_nodes(n))
-            names = stores - params - nested
-            if names:
-                rn = _Rename(names)
-                fn.body = [rn.visit(st) for st in fn.body]
-        open(p, 'w', encoding='utf8').write(ast.unparse(tree) + '\n')
-
-
-def sub(path, old, new, count=1):
-    s = open(path, encoding='utf8').read()
-    assert s.count(old) == count, (path, old[:40], s.count(old))
-    open(path, 'w', encoding='utf8').write(s.replace(old, new))
-
-
-def v_idioms(root):
-    """hand-written equivalent idioms (each known to preserve behaviour)"""
-    sub(f'{root}/types.py', "        r = self & t\n", "        r = t & self\n")
-    sub(f'{root}/types.py', "            result = result | t\n", "            result |= t\n")
-    sub(f'{root}/types.py', "        return bool(self & t)\n", "        return bool(t & self)\n")
-    sub(f'{root}/parser.py', """        if len(children) == 3:
-            op = _convert_binary_operator(children[1])
-            lhs = children[0].cast(op.parameter1)
-            rhs = children[2].cast(op.parameter2)
-            return HplBinaryOperator(op, lhs, rhs)
-        return children[0]  # len(children) == 1""", """        if len(children) == 1:
-            return children[0]
-        left, token, right = children
-        op = _convert_binary_operator(token)
-        return HplBinaryOperator(op, left.cast(op.parameter1), right.cast(op.parameter2))""")
-    sub(f'{root}/rewrite.py', "        return And(Not(phi.a), Not(phi.b))\n", "        return And(Not(phi.b), Not(phi.a))\n")
-    sub(f'{root}/ast/base.py', """        stack = [self]
-        while stack:
-            obj = stack.pop()
-            stack.extend(reversed(obj.children()))
-            yield obj""", """        yield self
-        for child in self.children():
-            yield from child.iterate()""")
-    sub(f'{root}/ast/expressions.py', "            return self if r == self.data_type else self.but(data_type=r)\n", "            if r == self.data_type:\n                return self\n            return self.but(data_type=r)\n")
-    sub(f'{root}/ast/events.py', """        for event in self.event1.simple_events():
-            yield event
-        for event in self.event2.simple_events():
-            yield event""", """        yield from self.event1.simple_events()
-        yield from self.event2.simple_events()""")
-    sub(f'{root}/cli.py', "    if isinstance(value, float) and (isinf(value) or isnan(value)):\n", "    if isinstance(value, float) and not math.isfinite(value):\n")
-    sub(f'{root}/cli.py', "from math import isinf, isnan\n", "import math\n")
-
-
-def v_additions(root):
-    """additions that leave every stated property intact: a new operator-free helper, a new function, a new AST-less class"""
-    sub(f'{root}/ast/expressions.py', "    @classmethod\n    def yaw(cls) -> 'FunctionDefinition':", "    @classmethod\n    def sign(cls) -> 'FunctionDefinition':\n        return cls.f('sign', DataType.NUMBER, DataType.NUMBER)\n\n    @classmethod\n    def yaw(cls) -> 'FunctionDefinition':")
-    sub(f'{root}/ast/expressions.py', "    YAW = FunctionDefinition.yaw()\n", "    YAW = FunctionDefinition.yaw()\n    SIGN = FunctionDefinition.sign()\n")
-    sub(f'{root}/rewrite.py', "def true() -> HplLiteral:", "def is_literal(expr: HplExpression) -> bool:\n    return expr.is_value and expr.is_literal\n\n\ndef true() -> HplLiteral:")
-    sub(f'{root}/types.py', "STRINGS: Final[TypeToken] = TypeToken('string', type=DataType.STRING)\n", "STRINGS: Final[TypeToken] = TypeToken('string', type=DataType.STRING)\nCHARS: Final[TypeToken] = TypeToken('char', type=DataType.STRING)\n")
-
-
-VARIANTS = {'unparse': v_unparse, 'reorder': v_reorder, 'rename': v_rename, 'idioms': v_idioms, 'additions': v_additions}
+sys.path.insert(0, '/verif')
+from hplsa.variants import VARIANTS  # noqa: E402
 
 
 def one(name):
